@@ -1,7 +1,7 @@
 """Per-property checks.  Each takes a Ctx (harness built from the working tree, tables exported,
 spec copied into the scratch directory) and returns the exit code."""
 import glob, json, os, random, shutil, subprocess, sys, tempfile
-from .core import Ctx, Infra, finish, log, sessions, large_inputs, repetitions, VERIF, REPO, TLA_CP, GOENV, NCPU
+from .core import Ctx, Infra, finish, log, sessions, large_inputs, repetitions, journal_env, after_harness, looks_fatal, VERIF, REPO, TLA_CP, GOENV, NCPU
 
 Q = lambda s: '"%s"' % s  # TLA+ string constant
 
@@ -629,7 +629,7 @@ def c09(ctx):
     ctx.write_params("MC_Case_P", {"LicIds": tla_seq(lic), "ExcIds": tla_seq(exc), "LicRel": tla_seq([rel(x) for x in lic]),
                                    "MixK": str(ctx.seed % 2), "P1": Q(p1), "P2": Q(p2)})
     extra_inv = ""
-    ctx.write_cfg("MC_Case", invariants=["Emit", "CaseInv"])   # Emit first: with -continue TLC skips later invariants of a violating state
+    ctx.write_cfg("MC_Case", invariants=["Emit", "CaseInv", "CaseSufInv"])   # Emit first: with -continue TLC skips later invariants of a violating state
     # FoldUnique is an assumption about the whole shipped lists: check it as an invariant of the initial state
     with open(os.path.join(ctx.spec, "MC_Case.cfg"), "a") as f:
         f.write("INVARIANT FoldUnique\n")
@@ -698,6 +698,12 @@ def lex_vocab(ctx, rng, focus="all"):
         add(plain.lower() if plain.lower() != plain else plain3.lower(), "lowerL", plain if plain.lower() != plain else plain3)
         add("and", "lowerop")
         add("DocumentRef-", "bareDR")
+        # the documented suffixes are matched exactly: in another letter case they are part of an unknown id
+        add(plain3 + "-ONLY", "unknown")
+        add(plain2.lower() + "-Or-Later", "unknown")
+        if listed_only:
+            lo = rng.choice(listed_only)
+            add(lo.upper(), "lowerL", lo)                # ... while a LISTED id that ends in -only is one id, in any case
     return V
 
 
@@ -911,8 +917,10 @@ def c13(ctx):
         ctx.notes.append("conc%d: %s; %d schedules replayed through the gating hooks" % (i, w, r["summary"]["byKind"].get("sched", 0)))
     # histories: repeats, shuffled and reversed order; first-occurrence events are trace-validated
     tpath = os.path.join(ctx.spec, "trace.ndjson")
+    je, jp = journal_env(ctx)
     hp = subprocess.run([ctx.harness, "conc", "hist", "-seed", str(ctx.seed), "-n", str(3000 if thorough else 600), "-trace", tpath],
-                        capture_output=True, text=True, timeout=1200)
+                        capture_output=True, text=True, timeout=1200, env=je)
+    after_harness(ctx, "histories", hp.returncode, hp.stderr, jp)
     if hp.returncode != 0:
         raise Infra("conc hist failed: " + hp.stderr[-2000:])
     hs = json.loads(hp.stdout)
@@ -933,8 +941,10 @@ def c13(ctx):
     dumps = {}
     for order in ("given", "reversed", "shuffled"):
         dp = os.path.join(ctx.scratch, "hist-%s.json" % order)
+        je, jp = journal_env(ctx)
         p2 = subprocess.run([ctx.harness, "conc", "hist", "-seed", str(ctx.seed), "-n", str(3000 if thorough else 600), "-order", order, "-dump", dp],
-                            capture_output=True, text=True, timeout=1200)
+                            capture_output=True, text=True, timeout=1200, env=je)
+        after_harness(ctx, "histories (fresh process, %s order)" % order, p2.returncode, p2.stderr, jp)
         if p2.returncode != 0:
             raise Infra("conc hist -order %s failed: %s" % (order, p2.stderr[-1500:]))
         with open(dp) as fh:
@@ -958,10 +968,11 @@ def c13(ctx):
     racy, ss, race_err = False, None, ""
     nproc = 8 if thorough else 4
     for k in range(nproc):
+        je, jp = journal_env(ctx, dict(os.environ, GORACE="halt_on_error=0"))
         sp = subprocess.run([race, "conc", "stress", "-seed", str(ctx.seed * 100 + k), "-n", str(1500 if thorough else 200),
-                             "-goroutines", str(64 if thorough else 24)], capture_output=True, text=True, timeout=2400,
-                            env=dict(os.environ, GORACE="halt_on_error=0"))
+                             "-goroutines", str(64 if thorough else 24)], capture_output=True, text=True, timeout=2400, env=je)
         this_racy = "DATA RACE" in sp.stderr or "fatal error: concurrent map" in sp.stderr
+        after_harness(ctx, "race-stress", None if this_racy else sp.returncode, sp.stderr, jp)
         try:
             one = json.loads(sp.stdout)
         except ValueError:
@@ -1043,6 +1054,10 @@ def measure(ctx, fn, e, a, tries=1, history=0):
         try:
             r = json.loads(p.stdout.strip().splitlines()[-1])
         except (ValueError, IndexError):
+            if looks_fatal(p.returncode, p.stderr):
+                # one call per process: the call killed it (stack overflow / out of memory) - no budget is met by a call that never returns
+                line = next((l for l in p.stderr.splitlines() if "fatal error:" in l or "runtime:" in l), "process died rc=%d" % p.returncode)
+                return {"alloc": 0, "ns": 0, "aborted": "crash: " + line}
             raise Infra("measure failed (rc=%d): %s" % (p.returncode, p.stderr[-1000:]))
         if best is None or r["ns"] < best["ns"]:
             best = r
@@ -1105,6 +1120,27 @@ def c14(ctx):
                 continue
             name = "Repeat-%s-%s" % (op, gname)
             extra[name] = [{"family": name, "n": n, "e": (" " + op + " ").join([grp] * n), "a": ["MIT"]} for n in small]
+    # the budget rule on the whole small vocabulary: every kind of lexeme, alone and in the smallest contexts, in every letter case
+    # of the id, of the documented suffixes and of the keywords (no growth rule: the members are unrelated texts)
+    vrng = random.Random(ctx.seed)
+    vocab = []
+    for text, kd, _c in lex_vocab(ctx, vrng, "all"):
+        if kd in ("op", "plus", "other") or len(text) > 40:
+            continue
+        vocab += [text, text.upper(), text.lower(), text.swapcase()]
+    vp1, vp2 = vrng.sample(Roles(ctx, vrng).unranged, 2)
+    vexc = vrng.choice(t["exceptions"])
+    for x in (vp1, vp2, ranged[0][:-1] if ranged else vp1):
+        for suf in ("-only", "-ONLY", "-Only", "-onlY", "-or-later", "-OR-LATER", "-Or-Later", "-or-lateR", "-only+", "-ONLY+", "-or-later+", "+", "++",
+                    "-only-only", "-or-later-or-later", "-only-or-later", "-or-later-only"):
+            vocab += [x + suf, x.lower() + suf, x.upper() + suf]
+        for w in (" WITH ", " with ", " With "):
+            vocab += [x + w + vexc, x + w + vexc.upper(), x + "+" + w + vexc.lower()]
+    vocab += ["LICENSEREF-a", "licenseref-a", "LicenseRef-A", "DOCUMENTREF-d:LicenseRef-a", "DocumentRef-d:LICENSEREF-a", "DocumentRef-D:LicenseRef-A",
+              vexc, vexc + "-only", vexc + "-or-later", vexc.upper() + "-ONLY"]
+    seenv = set()
+    extra["Vocabulary"] = [{"family": "Vocabulary", "n": k + 1, "e": v, "a": [vp1], "nogrowth": True}
+                           for k, v in enumerate(x for x in vocab if not (x in seenv or seenv.add(x)))]
     fams.update(extra)
     points, nontrivial = [], 0
     poly_note = {}
@@ -1127,7 +1163,7 @@ def c14(ctx):
                     ctx.mismatches.append({"what": "cost-budget", "fn": fn, "family": fam, "expr": c["e"][:300], "list": a[:3],
                                            "expected": "<= 64 MiB allocated and <= 1 s for an input of <= 512 bytes",
                                            "observed": pt, "source": "measure"})
-                prev = seen.get(c["n"] // 2) if c["n"] % 2 == 0 else None
+                prev = seen.get(c["n"] // 2) if c["n"] % 2 == 0 and not c.get("nogrowth") else None
                 # time: a doubling that turns well under a third of a second into more than ten seconds (the watchdog's limit)
                 # or multiplies a measurable time by more than 32 is not low-degree polynomial growth
                 if prev and not prev["aborted"]:
@@ -1143,7 +1179,7 @@ def c14(ctx):
                                                "expected": "alloc(2n)/alloc(n) <= 16 (degree <= 4)", "observed": {"ratio": ratio, "at": pt, "prev": prev},
                                                "source": "measure"})
                 seen[c["n"]] = pt
-                if m["aborted"] or m["alloc"] > 256 * MiB:
+                if (m["aborted"] or m["alloc"] > 256 * MiB) and not c.get("nogrowth"):
                     break   # larger members only cost more
     # cost must be a function of the call's own arguments: the same small calls after many distinct unrelated calls
     hist_n = 12000 if thorough else 5000
@@ -1188,7 +1224,9 @@ def c15(ctx):
     ctx.drive("trace", "invalid", 1500 if thorough else 400, leaves=6)
     ctx.validate_trace("trace")
     # long expressions (several KB, several rewrites more than 4 KiB apart): the offender's position is known by construction
-    lp = subprocess.run([ctx.harness, "longoffsets", "-seed", str(ctx.seed), "-n", str(300 if thorough else 60)], capture_output=True, text=True, timeout=900)
+    je, jp = journal_env(ctx)
+    lp = subprocess.run([ctx.harness, "longoffsets", "-seed", str(ctx.seed), "-n", str(300 if thorough else 60)], capture_output=True, text=True, timeout=900, env=je)
+    after_harness(ctx, "long-offsets", lp.returncode, lp.stderr, jp)
     try:
         lo = json.loads(lp.stdout)
     except ValueError:
@@ -1285,7 +1323,7 @@ def c04(ctx):
     run_lists(ctx, "lists", rng, 4 if thorough else 3)
     run_lex(ctx, "lex3", rng, 3, [" "] if not thorough else [" ", "  "])
     lexL, lexE = pick_plain(ctx, rng), rng.choice(ctx.tables["exceptions"])
-    ctx.write_cfg("MC_Tok", constants={"MaxLen": 5 if thorough else 4, "LexL": Q(lexL), "LexE": Q(lexE)},
+    ctx.write_cfg("MC_Tok", constants={"MaxLen": 5 if thorough else 4, "LexL": Q(lexL), "LexE": Q(lexE), "LexLR": Q("a"), "LexDR": Q("d")},
                   invariants=["GrammarInv", "TotalInv", "RoundTrip", "Emit"])
     r = ctx.run_tlc("tok", "MC_Tok", "MC_Tok", timeout=3000)
     if r["violated"]:
@@ -1308,7 +1346,7 @@ def c03(ctx):
     rng = random.Random(ctx.seed)
     thorough = ctx.tier == "thorough"
     lexL, lexE = pick_plain(ctx, rng), rng.choice(ctx.tables["exceptions"])
-    ctx.write_cfg("MC_Tok", constants={"MaxLen": 6 if thorough else 5, "LexL": Q(lexL), "LexE": Q(lexE)},
+    ctx.write_cfg("MC_Tok", constants={"MaxLen": 6 if thorough else 5, "LexL": Q(lexL), "LexE": Q(lexE), "LexLR": Q("a"), "LexDR": Q("d")},
                   invariants=["GrammarInv", "TotalInv", "RoundTrip", "Emit"])
     r = ctx.run_tlc("tok", "MC_Tok", "MC_Tok", timeout=3000)
     if r["violated"]:
@@ -1342,7 +1380,7 @@ def c05(ctx):
     thorough = ctx.tier == "thorough"
     lexL = pick_plain(ctx) if ctx.seed == 1 else pick_plain(ctx, rng)
     lexE = ctx.tables["exceptions"][0] if ctx.seed == 1 else rng.choice(ctx.tables["exceptions"])
-    ctx.write_cfg("MC_Tok", constants={"MaxLen": 6 if thorough else 5, "LexL": Q(lexL), "LexE": Q(lexE)},
+    ctx.write_cfg("MC_Tok", constants={"MaxLen": 6 if thorough else 5, "LexL": Q(lexL), "LexE": Q(lexE), "LexLR": Q("a"), "LexDR": Q("d")},
                   invariants=["GrammarInv", "TotalInv", "RoundTrip", "Emit"])
     r = ctx.run_tlc("tok", "MC_Tok", "MC_Tok", timeout=3000)
     if r["violated"]:
@@ -1350,6 +1388,13 @@ def c05(ctx):
     n = r["summary"].get("tokenSequences", 0)
     if n != r["distinct"] - 1:
         raise Infra("token space: replayer enumerated %d sequences, TLC found %d states" % (n, r["distinct"]))
+    # references NAMED like operators: still references (role, not text, decides what the descent takes for an operator)
+    for lr, dr in (("AND", "OR"), ("WITH", "AND"), ("OR", "WITH")):
+        ctx.write_cfg("MC_Tok", constants={"MaxLen": 5 if thorough else 4, "LexL": Q(lexL), "LexE": Q(lexE), "LexLR": Q(lr), "LexDR": Q(dr)},
+                      invariants=["GrammarInv", "TotalInv", "RoundTrip", "Emit"])
+        r2 = ctx.run_tlc("tok-ref-%s-%s" % (lr, dr), "MC_Tok", "MC_Tok", timeout=3000)
+        if r2["violated"]:
+            raise Infra("model-level invariant %s failed in MC_Tok (reference names %s/%s)" % (r2["violated"], lr, dr))
     if thorough:
         run_lex(ctx, "lex4", rng, 4, [" "], focus="core")
         run_lex(ctx, "lex3", rng, 3, [" ", "  "])
@@ -1482,6 +1527,14 @@ def replay(prop, path):
         ctx.export()
         p = subprocess.run([ctx.harness, "run1", "-event", path, os.path.join(ctx.spec, "trace.ndjson")], capture_output=True, text=True)
         sys.stdout.write(p.stdout)
+        if m.get("what") == "crash":
+            print("recorded:", json.dumps({k: m.get(k) for k in ("what", "fn", "expr", "list", "expected", "observed")}))
+            if looks_fatal(p.returncode, p.stderr):
+                print("the call kills the process again: " + next((l for l in p.stderr.splitlines() if "fatal error:" in l or "runtime:" in l), "rc=%d" % p.returncode))
+                print("VIOLATION property=%s replay=%s" % (prop, path))
+                return 1
+            print("the call returns on the current tree")
+            return 0 if p.returncode == 0 else 2
         if p.returncode != 0:
             sys.stderr.write(p.stderr)
             return 2
